@@ -99,7 +99,7 @@ func c16ByteStrings(seed int64, thorough bool) [][]byte {
 func init() {
 	core.Register(&core.Check{
 		ID: "C16", Level: "exploration",
-		Rule: "byte strings: every length 0..64 x fill patterns x boundary values (0,1,r-1,r,r+1,2r-1,2r,2^253,2^256-1,p-1,p,limb boundaries,PRF) in big- and little-endian placement with zero/0xFF padding, each through every decoder; scalars: S_edge alphabet through every encoder/decoder pair; a case is (decoder, byte string) or (codec pair, scalar); non-trivial = value >= r, length != 32, or non-zero padding",
+		Rule:   "byte strings: every length 0..64 x fill patterns x boundary values (0,1,r-1,r,r+1,2r-1,2r,2^253,2^256-1,p-1,p,limb boundaries,PRF) in big- and little-endian placement with zero/0xFF padding, each through every decoder; scalars: S_edge alphabet through every encoder/decoder pair; a case is (decoder, byte string) or (codec pair, scalar); non-trivial = value >= r, length != 32, or non-zero padding",
 		Assume: []string{"reference: math/big integer value of the byte string", "input slices are checked up to capacity (sentinel bytes beyond len)"},
 		Units:  c16Units,
 	})
